@@ -147,15 +147,44 @@ theorem inside_kept_partial (rd : RegionData) (rec : BioRecord) (w : Written)
     subregion numbers, a candidate's own number and its protocluster numbers, the number of a
     protocluster and of its core feature, a subregion's number — are its original's references sent
     through it; and each renumbering is a bijection from the region's areas onto `1..n` in which an
-    area has the smaller number iff it comes first in the region file (position, then larger first). -/
+    area has the smaller number iff it comes first in the region file (position, then larger first).
+    Ties (`TiesByRecordNumber`): areas of one kind at the same position with the same size are numbered in the
+    order of their record-wide numbers — which is the order in which their features stand in the file, hence
+    the order in which a record loading the file numbers them — whatever the order in which the region's
+    candidate clusters list them (the order of the dictionaries `_number_by_position` is handed). -/
 theorem renumber_consistent (rd : RegionData) (rec : BioRecord) (w : Written)
     (h : writeToGenbank rd rec = .ok w) :
     (∀ g ∈ w.extract.features, ∃ f ∈ rec.features, g.tag = f.tag ∧ g.type = f.type ∧
       RefsThrough (renumbering rd rec.length) f.type f.q g.q) ∧
-    GoodNumbering rd rec.length ((protoDict rd).map fun kv => (kv.1, kv.2.loc)) (renumbering rd rec.length).protos ∧
-    GoodNumbering rd rec.length (candDict rd) (renumbering rd rec.length).cands ∧
-    GoodNumbering rd rec.length (subDict rd) (renumbering rd rec.length).subs :=
-  ⟨fun g hg => written_refs rd rec w h g hg, renumbering_good rd rec.length⟩
+    (GoodNumbering rd rec.length ((protoDict rd).map fun kv => (kv.1, kv.2.loc)) (renumbering rd rec.length).protos ∧
+     GoodNumbering rd rec.length (candDict rd) (renumbering rd rec.length).cands ∧
+     GoodNumbering rd rec.length (subDict rd) (renumbering rd rec.length).subs) ∧
+    (TiesByRecordNumber rd rec.length ((protoDict rd).map fun kv => (kv.1, kv.2.loc)) (renumbering rd rec.length).protos ∧
+     TiesByRecordNumber rd rec.length (candDict rd) (renumbering rd rec.length).cands ∧
+     TiesByRecordNumber rd rec.length (subDict rd) (renumbering rd rec.length).subs) :=
+  ⟨fun g hg => written_refs rd rec w h g hg, renumbering_good rd rec.length, renumbering_ties rd rec.length⟩
+
+/-- Not vacuous: a region `[1000:1500]` of a record of 2000 bases with two protoclusters (record-wide numbers 2
+    and 3) on the same coordinates, each in its own candidate cluster (numbers 3 and 2, same coordinates again);
+    the region lists the candidate of protocluster 3 first, so the dictionary of protoclusters has 3 before 2. -/
+def exTie : RegionData :=
+  { start := 1000, «end» := 1500, subs := [],
+    cands := [⟨2, .simple ⟨1000, 1500, .fwd⟩, [⟨3, .simple ⟨1000, 1500, .fwd⟩, .simple ⟨1200, 1300, .fwd⟩⟩]⟩,
+              ⟨3, .simple ⟨1000, 1500, .fwd⟩, [⟨2, .simple ⟨1000, 1500, .fwd⟩, .simple ⟨1200, 1300, .fwd⟩⟩]⟩] }
+
+example : (protoDict exTie).map (·.1) = [3, 2] := by decide
+/-- the tied protoclusters are numbered by record-wide number (2 ↦ 1, 3 ↦ 2), not in dictionary order -/
+example : (dictGet (renumbering exTie 2000).protos 2).toOption = some 1 ∧
+    (dictGet (renumbering exTie 2000).protos 3).toOption = some 2 ∧
+    (dictGet (renumbering exTie 2000).cands 2).toOption = some 1 ∧
+    (dictGet (renumbering exTie 2000).cands 3).toOption = some 2 := by decide
+/-- numbering the tied areas in dictionary order instead (what a stable sort on position and size alone gives:
+    3 ↦ 1, 2 ↦ 2) breaks the tie rule -/
+example : ¬ TiesByRecordNumber exTie 2000 ((protoDict exTie).map fun kv => (kv.1, kv.2.loc)) [(3, 1), (2, 2)] := by
+  intro h
+  have := h 3 2 (.simple ⟨1000, 1500, .fwd⟩) (.simple ⟨1000, 1500, .fwd⟩) 1 2 (by decide) (by decide) rfl rfl
+    (by decide) (by decide)
+  omega
 
 /-- The full statement: the file, taken on its own, is what a record that loads it expects — areas of
     each kind numbered `1..n` in load order, every reference by number resolving, `core_location`
